@@ -21,8 +21,12 @@ impl PixelDataReader for UncompressedAdapter {
             .raw_pixel_data()
             .context(decode_error::MissingAttributeSnafu { name: "Pixel Data" })?;
 
+        // each frame is in its own fragment,
+        // which ends with a padding byte if the frame size is odd
+        let frame_size = frame_size(src);
         for fragment in pixeldata.fragments {
-            dst.extend_from_slice(&fragment);
+            let len = frame_size.map_or(fragment.len(), |s| s.min(fragment.len()));
+            dst.extend_from_slice(&fragment[..len]);
         }
 
         Ok(())
@@ -39,10 +43,29 @@ impl PixelDataReader for UncompressedAdapter {
             .frame_pixel_data(frame)
             .context(decode_error::FrameRangeOutOfBoundsSnafu)?;
 
-        dst.extend_from_slice(frame.as_ref());
+        // leave out the padding byte of odd sized frames
+        let frame: &[u8] = frame.as_ref();
+        let len = frame_size(src).map_or(frame.len(), |s| s.min(frame.len()));
+        dst.extend_from_slice(&frame[..len]);
 
         Ok(())
     }
+}
+
+/// The number of bytes of a frame according to the image attributes, if known.
+fn frame_size(src: &dyn PixelDataObject) -> Option<usize> {
+    let bits_allocated = src.bits_allocated()? as usize;
+    if bits_allocated % 8 != 0 {
+        // frames of bit-packed samples may not end on a byte boundary
+        return None;
+    }
+    let bytes_per_sample = bits_allocated / 8;
+    Some(
+        src.cols()? as usize
+            * src.rows()? as usize
+            * src.samples_per_pixel()? as usize
+            * bytes_per_sample,
+    )
 }
 
 impl PixelDataWriter for UncompressedAdapter {
